@@ -32,8 +32,7 @@ static void check(Rig& rig, const std::string& kase, const std::string& what, co
     const unsigned top = N / 2;
     double best = 1e300;
     for (double a : {1.0, 0.5, 0.0}) best = std::min(best, std::fabs(sumS - 0.5 * S[0] - a * S[top] - e));
-    const double rel = best / (absS + 1e-30);
-    if (absS > 0) worst_rel = std::max(worst_rel, rel);
+    worst_rel = std::max(worst_rel, best / (2e-5 * absS + 4e-6 * scale + 1e-300));
     if (!(best <= 2e-5 * absS + 4e-6 * scale)) {
         char d[240]; snprintf(d, 240, "%s: sum S - S0/2 - S_top = %.9g but 0.5*dq^2*sum rho*W/s = %.9g (sum|S| = %.6g)", what.c_str(), sumS - 0.5 * S[0] - S[top], e, absS);
         R.violate(keyb + "/parseval", kase, d);
@@ -128,7 +127,7 @@ int main(int argc, char** argv) {
         }
     }
 done:
-    R.numbers["worst_parseval_residual_rel"] = worst_rel;
+    R.numbers["worst_parseval_residual_over_tol"] = worst_rel;
     R.bound_done("n x N x {Re Z = e_k (+ imaginary part), all k < N} x {e_i, e_i+e_j : all i <= j}; 6 impedance models x 4 dense profiles; 2 cut-offs each; 2- and 3-bunch radiation fields x 3 impedances vs single-bunch fields");
     return R.finish();
 }
